@@ -5,6 +5,7 @@ import HappyProofs.C11.LogMatching
 import HappyProofs.C11.ApplyAgree
 import HappyProofs.C11.SubmitRun
 import HappyProofs.C11.Completeness
+import HappyProofs.C11.Safety
 /-! C11 — property theorems: statements about the `Spec` predicates on the frames of model runs.
 
 General theorems live next to their invariants (quantified over the repair flags they need):
@@ -14,9 +15,16 @@ General theorems live next to their invariants (quantified over the repair flags
 * `apply_in_order_no_gaps`     (ApplyOrder.lean)   every variant
 * `apply_from_log`             (ApplyAgree.lean)   every variant
 * `submit_resolves_own_command`(SubmitRun.lean)    needs `dropPending` (repair D4), fresh futures
-* `commit_monotone_partial`    (CommitMono.lean)   every variant, per step, modulo committed conflicts
-* `state_machine_safety_partial` (ApplyAgree.lean) every variant, modulo `commitAgreeOk`
-* `leader_completeness_partial`  (Completeness.lean) the commit rule
+* `match_sound`                (Safety.lean)       needs `keepVote`, `matchSent`, `staleAck` (repairs D1–D3, `Rep v`)
+* `leader_completeness`        (Safety.lean)       needs `Rep v`
+* `state_machine_safety`       (Safety.lean)       needs `Rep v`
+* `commit_monotone`            (Safety.lean)       needs `Rep v`
+* `commit_monotone_partial`, `state_machine_safety_partial`, `leader_completeness_partial`: the earlier
+  per-step / conditional forms (every variant), now lemmas of the full theorems
+
+The proof of the last four is one invariant (`HInv`, HInv.lean) over the run extended with history
+(`seen`, `llogs`, `cands`, Ghost.lean), preserved by every handler kind (HKind.lean, HStepA–D.lean);
+Leader Completeness at the level of records is `lc_main` (HInv.lean).
 
 Here they are instantiated for the repaired code and shown non-vacuous; the witnesses for the
 pinned code are in Witness.lean. -/
@@ -63,6 +71,59 @@ theorem submit_resolves_own_command_repaired (n : Nat) (as : List Act) (hf : Fre
   submit_resolves_own_command Variant.repaired rfl n as hf
 
 example : FreshFutures divergeRun := by unfold FreshFutures; decide
+
+/-! ### the safety core in full -/
+
+/-- `match_index[j] = m ≠ 0` at a leader: node `j` held the leader's first `m` entries in the leader's term -/
+theorem match_sound_repaired (n : Nat) (as : List Act) (i j : Nat)
+    (hl : ((run Variant.repaired (init n) as).nodes i).role = .leader)
+    (hm : ((run Variant.repaired (init n) as).nodes i).matchIndex.getD j 0 ≠ 0) :
+    ((run Variant.repaired (init n) as).nodes i).matchIndex.getD j 0 ≤ ((run Variant.repaired (init n) as).nodes i).log.length ∧
+    ∃ k, k ≤ as.length ∧ ((run Variant.repaired (init n) (as.take k)).nodes j).term = ((run Variant.repaired (init n) as).nodes i).term ∧
+      ((run Variant.repaired (init n) as).nodes i).log.take (((run Variant.repaired (init n) as).nodes i).matchIndex.getD j 0)
+        <+: ((run Variant.repaired (init n) (as.take k)).nodes j).log :=
+  match_sound Variant.repaired rep_repaired n as i j hl hm
+
+/-- non-vacuity: at the end of `divergeRun` leader 2 has `match_index[0] = 1` -/
+example : ((run Variant.repaired (init 3) divergeRun).nodes 2).role = .leader
+    ∧ ((run Variant.repaired (init 3) divergeRun).nodes 2).matchIndex.getD 0 0 = 1 := by decide
+
+/-- committed entries are in the log of every later leader — repaired code -/
+theorem leader_completeness_repaired (n : Nat) (as : List Act) : leaderCompleteOk (frames Variant.repaired n as) = true :=
+  leader_completeness Variant.repaired rep_repaired n as
+
+theorem leader_completeness_full_holds : leader_completeness_full := leader_completeness_repaired
+
+/-- `divergeRun`, then node 0 (which holds the committed c2) wins term 3 with the vote of node 1 -/
+def laterLeaderRun : List Act := divergeRun ++ [.timeout 0, .deliver 15, .deliver 17]
+
+/-- non-vacuity: an entry committed in term 2 is seen, and a leader of term 3 exists afterwards (and holds it) -/
+example : (((frames Variant.repaired 3 laterLeaderRun).flatMap committedOf).eraseDups,
+    ((frames Variant.repaired 3 laterLeaderRun).getLast?.map leaderObs),
+    ((frames Variant.repaired 3 laterLeaderRun).getLast?.map (fun f => f.views.map (·.log))))
+    = ([(1, (2, 2), 2)], some [(3, 0), (2, 2)], some [[(2, 2)], [], [(2, 2)]]) := by decide
+
+/-- no two committed entries at one index differ; no two nodes apply different commands at one index — repaired code -/
+theorem state_machine_safety_repaired (n : Nat) (as : List Act) :
+    commitAgreeOk (frames Variant.repaired n as) = true ∧ applyAgreeOk (frames Variant.repaired n as) = true :=
+  state_machine_safety Variant.repaired rep_repaired n as
+
+theorem state_machine_safety_full_holds : state_machine_safety_full := state_machine_safety_repaired
+
+/-- no node's commit index ever decreases — repaired code -/
+theorem commit_monotone_repaired (n : Nat) (as : List Act) : commitMonotoneOk (frames Variant.repaired n as) = true :=
+  commit_monotone Variant.repaired rep_repaired n as
+
+theorem commit_monotone_full_holds : commit_monotone_full := commit_monotone_repaired
+
+/-- no action removes or replaces an entry at or below a node's commit index — repaired code -/
+theorem committed_never_truncated_repaired (n : Nat) (as : List Act) (a : Act) (j : Nat) :
+    ((run Variant.repaired (init n) as).nodes j).log.take ((run Variant.repaired (init n) as).nodes j).commit
+      <+: ((step Variant.repaired (run Variant.repaired (init n) as) a).1.nodes j).log :=
+  committed_never_truncated Variant.repaired rep_repaired n as a j
+
+/-- non-vacuity: commit indices do move in `divergeRun` -/
+example : ((frames Variant.repaired 3 divergeRun).getLast?.map commitsOf) = some [0, 0, 1] := by decide
 
 /-- state-machine safety for the repaired code, reduced to agreement of committed entries -/
 theorem state_machine_safety_partial_repaired (n : Nat) (as : List Act)
